@@ -49,8 +49,15 @@ impl Rng {
 	}
 }
 
+pub static LAST_PANIC: std::sync::Mutex<String> = std::sync::Mutex::new(String::new());
+
+/// Panics are data: nothing is printed, the last message is kept for the top-level handler.
 pub fn silence_panics() {
-	std::panic::set_hook(Box::new(|_| {}));
+	std::panic::set_hook(Box::new(|info| {
+		if let Ok(mut g) = LAST_PANIC.lock() {
+			*g = info.to_string();
+		}
+	}));
 }
 
 /// Run `f`; a panic in the code under test is data.
